@@ -16,10 +16,14 @@ mod fspaths;
 mod refnames;
 #[path = "paths/quote.rs"]
 mod quote;
+#[path = "paths/chartab.rs"]
+mod chartab;
 #[path = "paths/parse_worker.rs"]
 mod parse_worker;
 #[path = "paths/parse_lib.rs"]
 mod parse_lib;
+#[path = "paths/grammar_text.rs"]
+mod grammar_text;
 
 fn main() -> ExitCode {
     let args: Vec<String> = std::env::args().collect();
@@ -34,8 +38,8 @@ fn main() -> ExitCode {
         "fspaths" => fspaths::run(&opts),
         "refnames" => refnames::run(&opts),
         "quote" => quote::run(&opts),
-        "parse-supervise" => parse_worker::supervise(&opts),
-        "parse-worker" => parse_worker::worker(&opts, &parse_lib::parse_case),
+        "parse-supervise" => parse_worker::supervise(&args[2..], "parse-worker"),
+        "parse-worker" => parse_worker::worker(&args[2..], parse_lib::parse_case),
         m => Err(format!("unknown mode {m}")),
     };
     match r {
